@@ -10,12 +10,13 @@
    C05 builds on C04: Inv04 is a hypothesis.  Known05 = K05-setref, K05-move-late (witnesses below).
    Pending05 (for Inv05 given Inv04, C05_inv_partial) = OpCopy OpCopyAt OpMove OpMoveAt OpSetItemName, OpRemoveFile of the
    last file of a model; Pending45 (both invariants, C45_inv_partial) = the same without OpSetItemName; Pending45m (C45_inv,
-   C05_history) = OpCopy OpCopyAt, OpMove/OpMoveAt of a non-identifiable element or between two models, OpRemoveFile of
-   the last file of a model.
+   C05_history) = OpCopy OpCopyAt, OpMove/OpMoveAt of a non-identifiable element or between two models; Pending45x
+   (C45_inv_x, C05_history_x) = OpMove/OpMoveAt between two models only.
    References WITHOUT string text are in neither map: never reported, and resolving them fails (C05_textless) —
    so "absent from the report iff resolving returns the target" holds for references with text only (C05_resolve).
    [P] C05_inv_partial, C45_inv_partial (with set_item_name), C05_history_partial (steps: Pending45),
-       C45_inv (with local moves), C05_history (closed: from the empty world), C05_history_real [F]
+       C45_inv (with local moves), C05_history (closed: from the empty world), C05_history_real [F],
+       C45_inv_x (copies, container moves), C05_history_x, C05_history_x_real [F]
    [U] C05_report, C05_resolve, C05_textless *)
 From AV Require Import Base.Bytes Base.Outcome Hash.HashModel Tree.Heap Tree.Ops Tree.Script.
 From AV Require Import Tree.Index Tree.IndexProofs Tree.Refs Tree.RefsProofsReport Tree.RefsProofsOps Tree.IndexProofsTiny.
@@ -90,6 +91,36 @@ Theorem C05_history_real :
   run_ops RT tab_el tab_en (check_fn_model dfas) LATEST root_attrs l empty_world = Val w' ->
   TreeFacts w' /\ Inv04 RT (check_fn_model dfas) w' /\ Inv05 RT w'.
 Proof. exact C04_C05_history_rt. Qed.
+
+(* second refinement: copies and every move inside one model *)
+Theorem C45_inv_x :
+  forall (T : tables) (tab_el tab_en : nametab) (check_fn : N -> list N -> res bool) (LATEST : N)
+         (root_attrs : list (N * cdata)),
+  TablesOK T check_fn ->
+  forall (w : world) (o : op) (r : out value) (w' : world),
+  TreeFacts w -> Inv04 T check_fn w -> Inv05 T w ->
+  Known04 T LATEST w o = false -> Known05 T tab_el tab_en check_fn LATEST root_attrs w o = false ->
+  Pending45x w o = false ->
+  run_op T tab_el tab_en check_fn LATEST root_attrs o w = Val (r, w') -> Inv04 T check_fn w' /\ Inv05 T w'.
+Proof. exact IndexProofsClosed.C45_inv_x. Qed.
+
+Theorem C05_history_x :
+  forall (T : tables) (tab_el tab_en : nametab) (check_fn : N -> list N -> res bool) (LATEST : N)
+         (root_attrs : list (N * cdata)),
+  TablesOK T check_fn ->
+  forall (l : list op) (w' : world),
+  clean45x T tab_el tab_en check_fn LATEST root_attrs l empty_world = true ->
+  run_ops T tab_el tab_en check_fn LATEST root_attrs l empty_world = Val w' ->
+  TreeFacts w' /\ Inv04 T check_fn w' /\ Inv05 T w'.
+Proof. exact C04_C05_history_x. Qed.
+
+Theorem C05_history_x_real :
+  forall (dfas : N -> option (list (list N) * list N)) (tab_el tab_en : nametab) (LATEST : N) (root_attrs : list (N * cdata))
+         (l : list op) (w' : world),
+  clean45x RT tab_el tab_en (check_fn_model dfas) LATEST root_attrs l empty_world = true ->
+  run_ops RT tab_el tab_en (check_fn_model dfas) LATEST root_attrs l empty_world = Val w' ->
+  TreeFacts w' /\ Inv04 RT (check_fn_model dfas) w' /\ Inv05 RT w'.
+Proof. exact C04_C05_history_x_rt. Qed.
 
 Theorem C05_report :
   forall (T : tables) (check_fn : N -> list N -> res bool) (w : world) (m : N) (r : out (list id)) (w' : world),
